@@ -26,7 +26,10 @@ import asyncio
 import copy
 import datetime
 import itertools
+import os
 import re
+import shutil
+import tempfile
 import warnings
 from typing import Any
 
@@ -81,6 +84,17 @@ Definition chk_copy2 (W : world N) (pre : list (op N)) (ns1 : dict N) (k : str)
   let st1 := st_push (st_push (ctx_copy st ns1) []) [(k_w_, Data 90%N)] in
   option_eqb value_eqb (st_lookup (st_push (ctx_copy st1 []) []) k) inner
   && option_eqb value_eqb (st_lookup st k) outer.
+Definition refetch_state (W : world N) (tg2 ra2 : dict N) : state N :=
+  let s0 := caller_store W ++ [tg2; ra2] in
+  let '(s1, eg) := or_empty s0 0%nat in
+  let '(s2, gd) := env_make_globals s1 eg 1%nat in
+  let '(s3, gd') := or_empty s2 gd in
+  let '(s4, ov) := or_empty s3 2%nat in
+  let '(s5, g) := cache_hit_globals s4 eg 4%nat gd' ov 5%nat in
+  ctx_init s5 g None.
+Definition chk_refetch (W : world N) (tg2 ra2 : dict N) (prog : list (op N)) (exp : list (obs N)) : bool :=
+  let r := exec 30 (Extend d0 prog) (refetch_state W tg2 ra2) in
+  list_eqb obs_eqb (trace_of r) exp && N.eqb (status_code (status_of r)) 0.
 Definition raw_state (s : store N) (c : list mref) : state N :=
   {| store_of := s; scope := c; locals_a := 0%nat; counters_a := 0%nat; globals_r := RBuiltin;
      root_r := RBuiltin |}.
@@ -973,6 +987,225 @@ def part_c(chk: C.Check, thorough: bool) -> list[dict[str, Any]]:
     return items
 
 
+# ============================= E: caching loaders that supply matter; repeated fetches and renders
+
+
+def _front_matter(text: str) -> tuple[str, dict[str, str] | None]:
+    if text.startswith("---\n"):
+        head, _, body = text[4:].partition("\n---\n")
+        return body, dict(line.split(": ", 1) for line in head.splitlines() if ": " in line)
+    return text, None
+
+
+def caching_loader(kind: str, sources: dict[str, str], matter: dict[str, dict | None], root: str):
+    """A caching loader whose TemplateSource carries matter: dict-backed (matter handed
+    over as a mapping) or file-system backed (front matter parsed from the file)."""
+    from liquid2 import CachingDictLoader, CachingFileSystemLoader
+    from liquid2.loader import TemplateSource
+
+    if kind == "dict":
+        class MatterCachingDictLoader(CachingDictLoader):
+            def get_source(self, env, template_name, *, context=None, **kwargs):  # type: ignore[no-untyped-def]
+                ts = super().get_source(env, template_name, context=context, **kwargs)
+                return TemplateSource(ts.source, ts.name, ts.uptodate, matter.get(template_name))
+
+            async def get_source_async(self, env, template_name, *, context=None, **kwargs):  # type: ignore[no-untyped-def]
+                ts = await super().get_source_async(env, template_name, context=context, **kwargs)
+                return TemplateSource(ts.source, ts.name, ts.uptodate, matter.get(template_name))
+
+        return MatterCachingDictLoader(dict(sources))
+
+    class FrontMatterLoader(CachingFileSystemLoader):
+        @staticmethod
+        def _split(ts):  # type: ignore[no-untyped-def]
+            body, m = _front_matter(ts.source)
+            return TemplateSource(body, ts.name, ts.uptodate, m)
+
+        def get_source(self, env, template_name, *, context=None, **kwargs):  # type: ignore[no-untyped-def]
+            return self._split(super().get_source(env, template_name, context=context, **kwargs))
+
+        async def get_source_async(self, env, template_name, *, context=None, **kwargs):  # type: ignore[no-untyped-def]
+            return self._split(await super().get_source_async(env, template_name, context=context, **kwargs))
+
+    for name, src in sources.items():
+        m = matter.get(name)
+        head = ("---\n" + "".join(f"{k}: {v}\n" for k, v in m.items()) + "---\n") if m else ""
+        with open(os.path.join(root, name), "w", encoding="utf-8") as fd:
+            fd.write(head + src)
+    return FrontMatterLoader(root)
+
+
+def part_e(chk: C.Check, thorough: bool) -> list[dict[str, Any]]:
+    from liquid2 import Environment
+
+    items: list[dict[str, Any]] = []
+    st = chk.coverage.setdefault("partE", {"environments": 0, "fetches": 0, "cache_hits": 0, "renders": 0, "lookups": 0,
+                                           "matter_layer_answered_after_a_cache_hit": 0, "from_string_renders": 0,
+                                           "_nontrivial": set()})
+    scratch = tempfile.mkdtemp(prefix="c10_", dir=os.environ.get("VERIF_SCRATCH", "/var/tmp"))
+    loop = asyncio.new_event_loop()
+
+    def check(got: tuple | None, want: tuple | None, sig: str, what: str, replay: dict) -> None:
+        st["lookups"] += 1
+        g = ("U",) if got in (("N",), ("T",)) else got
+        if g != want:
+            chk.finding("precedence:" + sig, f"{what}: resolved to {got}, the documented order gives {want}", replay)
+
+    try:
+        n_env = 0
+        for bits in range(256):
+            S = "".join(l for i, l in enumerate(LAYERS) if bits >> i & 1)
+            name = ("today" if (len(S) % 2) else "now") if "U" in S else "x"
+            combos = [("dict", False), ("dict", True), ("fs", False), ("fs", True)]
+            if not thorough:
+                combos = [combos[bits % 2], combos[3 - bits % 2]]
+            for kind, is_async in combos:
+                n_env += 1
+                P = Prog(probe=True)
+                pre, _ = api_program(S, name, "plain")
+                out = ("out", name)
+                nodes = pre + ([("with", [(name, ("D", 1))], [out])] if "B" in S else [out]) + [out, ("include", [], [out])]
+                src = P.src(nodes) + "{% render 'rp' %}"
+                kinds = P.kinds(nodes)
+                ops = P.ops(nodes)
+                sources = dict(P.partials)
+                sources.update({
+                    "main": src,
+                    "rp": "{{ " + name + " | probe }}" + SEP,
+                    "child": "{% extends 'base' %}{% block b %}{{ " + name + " | probe }}" + SEP + "{% endblock %}",
+                    "base": "{% block b %}{% endblock %}{{ " + name + " | probe }}" + SEP,
+                })
+                own = {name: "v4"} if "M" in S else None
+                matter: dict[str, dict | None] = {k: {name: "v8"} for k in sources}
+                matter["main"] = own
+                matter["child"] = own
+                root = os.path.join(scratch, f"e{n_env}")
+                os.mkdir(root)
+                eg = {name: "v6"} if "E" in S else None
+                env = Environment(loader=caching_loader(kind, sources, matter, root), globals=eg)
+                env.filters["probe"] = probe_filter
+                st["environments"] += 1
+                W1 = api_world(S, name)
+
+                def fetch(tname: str, tg: dict | None):  # type: ignore[no-untyped-def]
+                    st["fetches"] += 1
+                    if tname in env.loader.cache:
+                        st["cache_hits"] += 1
+                    if is_async:
+                        return loop.run_until_complete(env.get_template_async(tname, globals=tg))
+                    return env.get_template(tname, globals=tg)
+
+                def render(t: Any, ra: dict, twice: bool = True) -> str:
+                    st["renders"] += 2 if twice else 1
+                    if is_async:
+                        a = loop.run_until_complete(t.render_async(**ra))
+                        b = loop.run_until_complete(t.render_async(**ra)) if twice else a
+                    else:
+                        a = t.render(**ra)
+                        b = (t.render(ra) if ra else t.render()) if twice else a
+                    if a != b:
+                        chk.finding("cached:render-not-repeatable", "two renders of one fetched template differ",
+                                    {"source": src, "first": a, "second": b})
+                    return a
+
+                # (tg token, ra token) of the successive fetches of `main`
+                plan = [(5 if "T" in S else None, 3 if "R" in S else None), (None, None), (7, 9 if "R" in S else None)]
+                if thorough:
+                    plan.append((5 if "T" in S else None, 3 if "R" in S else None))
+                for fi, (tgv, rav) in enumerate(plan):
+                    tg = {name: f"v{tgv}"} if tgv else None
+                    ra = {name: f"v{rav}"} if rav else {}
+                    Si = "".join(l for l in S if l not in "TR") + ("T" if tgv else "") + ("R" if rav else "")
+                    vals = {"T": ("D", tgv or 0), "R": ("D", rav or 0)}
+                    replay = {"layers": S, "loader": "caching " + kind, "async": is_async, "fetch": fi + 1, "template": "main",
+                              "per_call_globals": tg, "render_args": ra, "source": src,
+                              "partials": {k: v for k, v in sources.items() if k != "main"}}
+                    segs = render(fetch("main", tg), ra, twice=thorough or fi != 1).split(SEP)
+                    replay["output"] = segs
+                    if len(segs) != len(kinds) + 2 or segs[-1] != "":
+                        chk.finding("cached:output-shape", "unexpected output shape", replay)
+                        continue
+                    trace: list[tuple] = []
+                    for kind_, seg in zip(kinds, segs):
+                        if kind_[0] == "L":
+                            trace.append(("L", kind_[1], token_of_probe(seg)))
+                        elif kind_[0] == "C":
+                            trace.append(("C", int(seg) if re.fullmatch(r"-?\d+", seg) else 12345))
+                    looks = [x[2] for x in trace if x[0] == "L"]
+                    tag = f"layers {S}, caching {kind} loader{' async' if is_async else ''}, fetch {fi + 1} of main"
+                    sig = "cached template, fetch 1" if fi == 0 else "cached template, later fetch"
+                    check(looks[0], spec_value(Si, LAYERS, vals), sig, tag + " (in the block)", replay)
+                    check(looks[1], spec_value(Si, "LRMTEUC", vals), sig, tag + " (after the block)", replay)
+                    check(looks[2], spec_value(Si, "LRMTEUC", vals), sig, tag + " (in the included partial)", replay)
+                    check(token_of_probe(segs[-2]), spec_value(Si, "RMTEU", vals), sig, tag + " (in the rendered partial)", replay)
+                    if fi and spec_value(Si, LAYERS, vals) == ("D", 4):
+                        st["matter_layer_answered_after_a_cache_hit"] += 1
+                    if len(Si) >= 2:
+                        st["_nontrivial"].add((S, kind, is_async, fi))
+                    ctg = cdict([(name, ("D", tgv))] if tgv else [])
+                    cra = cdict([(name, ("D", rav))] if rav else [])
+                    if fi == 0:
+                        case = f"chk {cworld(W1)} {cops(ops)} {ctrace(trace)}"
+                    else:
+                        case = f"chk_refetch {cworld(W1)} {ctg} {cra} {cops(ops)} {ctrace(trace)}"
+                    items.append({"case": case, "model": f"observe (exec 30 (Extend d0 {cops(ops)}) (refetch_state {cworld(W1)} {ctg} {cra}))",
+                                  "replay": replay})
+                # a child of a cached base (extends), fetched twice
+                for fi, (tgv, rav) in enumerate(plan[:2] if not thorough else plan[:3]):
+                    tg = {name: f"v{tgv}"} if tgv else None
+                    ra = {name: f"v{rav}"} if rav else {}
+                    Si = "".join(l for l in S if l in "MEU") + ("T" if tgv else "") + ("R" if rav else "")
+                    vals = {"T": ("D", tgv or 0), "R": ("D", rav or 0)}
+                    segs = render(fetch("child", tg), ra, twice=thorough or fi == 1).split(SEP)
+                    replay = {"layers": S, "loader": "caching " + kind, "async": is_async, "fetch": fi + 1, "template": "child (extends base)",
+                              "per_call_globals": tg, "render_args": ra, "sources": {k: sources[k] for k in ("child", "base")}, "output": segs}
+                    if len(segs) != 3:
+                        chk.finding("cached:output-shape", "unexpected output shape", replay)
+                        continue
+                    for seg, where in zip(segs, ("in the block of the child", "in the base template")):
+                        check(token_of_probe(seg), spec_value(Si, "RMTEU", vals), "cached template, extends",
+                              f"layers {S}, caching {kind} loader{' async' if is_async else ''}, fetch {fi + 1} of child ({where})", replay)
+                # the partial, cached through {% render %} with a context, now fetched directly: its OWN matter
+                tg = {name: "v7"}
+                segs = render(fetch("rp", tg), {}, twice=thorough).split(SEP)
+                Si = "MT" + "".join(l for l in S if l in "EU")
+                check(token_of_probe(segs[0]), spec_value(Si, "MTEU", {"M": ("D", 8), "T": ("D", 7)}), "cached partial fetched directly",
+                      f"layers {S}, caching {kind} loader: the partial rp fetched with get_template after it was cached by a render tag",
+                      {"layers": S, "loader": kind, "async": is_async, "output": segs, "source": sources["rp"], "matter": {name: "v8"}, "globals": tg})
+                # Environment.from_string(..., globals, overlay_data) rendered repeatedly
+                if (kind, is_async) == combos[0]:
+                    t = env.from_string(src, globals={name: "v5"} if "T" in S else None, overlay_data=own)
+                    for ri, rav in enumerate((3 if "R" in S else None, None, 9)):
+                        ra = {name: f"v{rav}"} if rav else {}
+                        Si = "".join(l for l in S if l != "R") + ("R" if rav else "")
+                        vals = {"R": ("D", rav or 0)}
+                        segs = (loop.run_until_complete(t.render_async(**ra)) if is_async else t.render(**ra)).split(SEP)
+                        st["from_string_renders"] += 1
+                        replay = {"layers": S, "api": "from_string(globals, overlay_data)", "render": ri + 1, "render_args": ra,
+                                  "source": src, "output": segs}
+                        if len(segs) != len(kinds) + 2:
+                            chk.finding("cached:output-shape", "unexpected output shape", replay)
+                            continue
+                        trace = []
+                        for kind_, seg in zip(kinds, segs):
+                            if kind_[0] == "L":
+                                trace.append(("L", kind_[1], token_of_probe(seg)))
+                            elif kind_[0] == "C":
+                                trace.append(("C", int(seg) if re.fullmatch(r"-?\d+", seg) else 12345))
+                        looks = [x[2] for x in trace if x[0] == "L"]
+                        check(looks[0], spec_value(Si, LAYERS, vals), "from_string rendered repeatedly",
+                              f"layers {S}, render {ri + 1} of one from_string template (in the block)", replay)
+                        check(looks[1], spec_value(Si, "LRMTEUC", vals), "from_string rendered repeatedly",
+                              f"layers {S}, render {ri + 1} of one from_string template (after the block)", replay)
+                        Wi = api_world(Si, name, vals)
+                        items.append({"case": f"chk {cworld(Wi)} {cops(ops)} {ctrace(trace)}",
+                                      "model": f"observe (render 30 {cworld(Wi)} {cops(ops)})", "replay": replay})
+    finally:
+        loop.close()
+        shutil.rmtree(scratch, ignore_errors=True)
+    return items
+
+
 # ================================================== D: immutability of the data
 
 
@@ -1090,7 +1323,7 @@ def filter_sources(filters: dict[str, Any], thorough: bool, r) -> list[tuple[str
         elif thorough:
             paths = r.sample(PATHS, 12) + ["ints", "dicts"]
         else:
-            paths = r.sample(PATHS, 4) + ["ints", "dicts"]
+            paths = r.sample(PATHS, 3) + ["ints", "dicts"]
         req, mx, kw = filter_arity(filters[f])
         fits = [a for a, n in zip(ARG_SHAPES, ARG_ARITY) if (req <= n <= mx) or (n == -1 and kw and req == 0)]
         misfits = [a for a in ARG_SHAPES if a not in fits]
@@ -1098,7 +1331,7 @@ def filter_sources(filters: dict[str, Any], thorough: bool, r) -> list[tuple[str
             if thorough:
                 shapes = fits + (r.sample(misfits, min(2, len(misfits))))
             elif f in arrayish:
-                shapes = r.sample(fits, min(7, len(fits))) + r.sample(misfits, min(1, len(misfits)))
+                shapes = r.sample(fits, min(6, len(fits))) + r.sample(misfits, min(1, len(misfits)))
             else:
                 shapes = r.sample(fits, min(3, len(fits))) + r.sample(misfits, min(1, len(misfits)))
             for a in shapes:
@@ -1314,14 +1547,18 @@ def main(chk: C.Check, build: C.Build) -> None:
     items_c = part_c(chk, thorough)
     walls["C"] = round(time.time() - t0, 1)
     t0 = time.time()
+    items_e = part_e(chk, thorough)
+    walls["E"] = round(time.time() - t0, 1)
+    t0 = time.time()
     part_d(chk, thorough)
     walls["D"] = round(time.time() - t0, 1)
     chk.coverage["part_wall_s"] = walls
 
-    for it, part in ((items_a, "A public API"), (items_b, "B RenderContext"), (items_c, "C ReadOnlyChainMap")):
+    for it, part in ((items_a, "A public API"), (items_b, "B RenderContext"), (items_c, "C ReadOnlyChainMap"),
+                     (items_e, "E caching loaders with matter / repeated renders")):
         for x in it:
             x["replay"]["part"] = part
-    items = items_a + items_b + items_c
+    items = items_a + items_b + items_c + items_e
     what = "ChainMap.v (render, ctx_copy, exec_list, cm_*) vs public API / RenderContext / ReadOnlyChainMap"
     t0 = time.time()
     shard = min(1000, max(250, -(-len(items) // (2 * C.JOBS))))
@@ -1333,15 +1570,21 @@ def main(chk: C.Check, build: C.Build) -> None:
     nontrivial_d = chk.coverage.pop("_d_nontrivial")
     nontrivial_a = len(a.pop("_nontrivial"))
     nontrivial_b = len(b.pop("_nontrivial"))
+    e_ = chk.coverage["partE"]
+    nontrivial_e = len(e_.pop("_nontrivial"))
     chk.coverage.update({
-        "evaluations": a["renders"] + b["sequences"] + c["chains"] + d["renders"],
-        "distinct_nontrivial": nontrivial_a + nontrivial_b + nontrivial_d,
-        "distinct_nontrivial_parts": {"A": nontrivial_a, "B": nontrivial_b, "D": nontrivial_d},
+        "evaluations": a["renders"] + b["sequences"] + c["chains"] + d["renders"] + e_["renders"] + e_["from_string_renders"],
+        "distinct_nontrivial": nontrivial_a + nontrivial_b + nontrivial_d + nontrivial_e,
+        "distinct_nontrivial_parts": {"A": nontrivial_a, "B": nontrivial_b, "D": nontrivial_d, "E": nontrivial_e},
         "rule": ("A: every one of the 2^8 subsets of the eight layers binds one name (x, or now/today when the built-in layer is in the subset) "
                  "to distinct values through Environment(globals) / get_template|from_string(globals, matter) / render(args) / assign / "
                  "with|for|include block / increment, in 11 program shapes (quick: one API path per case in rotation; thorough: all three); "
                  "B: the same 256 subsets plus seeded random nested operation sequences on a real RenderContext; C: random ReadOnlyChainMap "
-                 "histories; D: every registered filter x container path x argument shape, every expression-taking tag, filter pairs, "
+                 "histories; E: caching loaders that supply matter (dict-backed, and file-system backed with front matter), every one of the 2^8 "
+                 "subsets, the template fetched 3 times (with its globals, without, with other globals), every fetch rendered twice, "
+                 "sync and async, partials reached through include/render/extends from the cached parent and then fetched directly, "
+                 "and one from_string template rendered 3 times (non-trivial = fetches whose name is bound in >= 2 layers); "
+                 "D: every registered filter x container path x argument shape, every expression-taking tag, filter pairs, "
                  "failing tails, 3 environments (one root and one failing tail per case in rotation; quick samples argument shapes, "
                  "paths of non-array filters, one of four template forms, 6 of 24 for-loop option sets and 2 paths per filter pair). "
                  "distinct_nontrivial = distinct A (subset, shape) pairs whose name is bound in >= 2 layers + distinct B sequences in which "
